@@ -37,7 +37,7 @@ func TestStepwiseCertification(t *testing.T) {
 		changeEvery := rapid.IntRange(3, 12).Draw(t, "changeEvery")
 		carry := rapid.IntRange(0, 3).Draw(t, "carryOneIn") // 0: never carry an aggregate (certification lags for ever)
 		var pending *node.Spec
-		nonEmpty, atChange, carried := 0, 0, 0
+		nonEmpty, atChange, carried, beyond := 0, 0, 0, 0
 		for i := 1; i <= length; i++ {
 			sp := node.Spec{Script: node.Script{Salt: uint32(i % 3)}}
 			if pending != nil {
@@ -113,6 +113,24 @@ func TestStepwiseCertification(t *testing.T) {
 			if nh, ok := n.NextParamHeight(cert + 1); ok && nh == pc {
 				atChange++
 			}
+			// the bound "not beyond the block preceding the next validator-set change": a genuine, fully signed aggregate for a height AT
+			// or ABOVE the first change height above certified+1 (read from the raw key space) must be refused, however many further
+			// changes follow (seeded C06-c returned the LAST change; the end-of-history tests met two uncertified changes too rarely)
+			if nh, ok := n.NextParamHeight(cert + 1); ok && nh <= pc {
+				h := rapid.Uint32Range(nh, pc).Draw(t, "beyondBound")
+				if p, err := n.CurrentParams(h); err == nil {
+					if ac, err := n.BuildAggregate(h, p.Idx); err == nil {
+						if verr := n.Exec.VerifVerifyAggregateCommit(n.Store(), ac); verr == nil {
+							t.Fatalf("tip %d (precommitted %d, certified %d): a fully signed aggregate commit for height %d is accepted although the next validator-set change above certified+1 starts at %d (allowed: <= %d)\n%s",
+								n.Tip().Header.Height, pc, cert, h, nh, nh-1, strings.Join(hist, "\n"))
+						}
+						beyond++
+					}
+				}
+			}
+		}
+		if beyond > 0 {
+			evid.R.Label("stepwise-aggregate-beyond-the-next-change-refused", int64(beyond))
 		}
 		if atChange > 0 {
 			evid.R.Label("stepwise-assembled-while-precommitted-height-is-a-change-height", int64(atChange))
